@@ -318,10 +318,14 @@ fn check_c13(text: &str, model: &MField, subst: bool, through_control: bool) -> 
                 out.push(viol("provenance", ctx(&format!("the field {} normalises to {:?}", how, got))));
             }
         }
-        let with_empty = ll::Relations::from(std::iter::once(ll::Entry::new()).chain(r.entries()).collect::<Vec<_>>());
-        let got = with_empty.wrap_and_sort().to_string();
-        if got != o {
-            out.push(viol("no-empty-entries", ctx(&format!("with an empty constructed entry in front the field normalises to {:?}", got))));
+        let n_entries = r.entries().count();
+        for at in 0..=n_entries {
+            let mut es: Vec<ll::Entry> = r.entries().collect();
+            es.insert(at, ll::Entry::new());
+            let got = ll::Relations::from(es).wrap_and_sort().to_string();
+            if got != o {
+                out.push(viol("no-empty-entries", ctx(&format!("with an empty constructed entry at position {} the field normalises to {:?}", at, got))));
+            }
         }
         let items: Vec<&str> = if o.is_empty() { vec![] } else { o.split(", ").collect() };
         for e in r.entries() {
